@@ -205,11 +205,18 @@ def doc_fields(ctx):
     ctx.rule(RF, "write census over the hash types: a function that writes fields of a `&mut` hash-typed destination defines every field on every normal return; a value copied from a field of another hash object goes to the like-named (like-indexed) field")
 
 
-def like_index(ctx, prog):
+def in_scope(f, scope):
+    import re as _re
+    return scope is None or _re.search(scope, f.path) is not None
+
+
+def like_index(ctx, prog, scope=None, floor=30):
     """copies between hash objects go from field F to field F (blockhash1->blockhash1, len2->len2, ...)"""
     doc_fields(ctx)
     n = 0
     for f in prog.fns:
+        if not in_scope(f, scope):
+            continue
         for w in census(f):
             if w.kind == "handoff" or w.src is None or not isinstance(w.src, tuple):
                 continue
@@ -233,14 +240,16 @@ def like_index(ctx, prog):
             ctx.visit(f)
             ctx.ob(RF, "%s: %s <- source field of the same name" % (f.short, w.field), of[2] == w.field,
                    "%s.%s = %s" % (w.root, w.field, show(w.src)), f.loc(w.sp))
-    ctx.floor(RF, n, 30, "field-to-field copies between hash objects")
+    ctx.floor(RF, n, floor, "field-to-field copies between hash objects%s" % ("" if scope is None else " in scope"))
 
 
-def dest_complete(ctx, prog):
+def dest_complete(ctx, prog, scope=None, floor=6):
     """every function writing through a `&mut` hash-typed parameter defines all of its fields on every normal return"""
     doc_fields(ctx)
     n = 0
     for f in prog.fns:
+        if not in_scope(f, scope):
+            continue
         ws = [w for w in census(f) if w.root.startswith("param:") and w.owner in FIELDS_OF]
         if not ws:
             continue
@@ -283,4 +292,4 @@ def dest_complete(ctx, prog):
                 continue
             ctx.ob(RF, "%s: defines every field of its `%s` destination on every normal return" % (f.short, root[0][6:]), not missing,
                    "all of %s written" % (", ".join(need)) if not missing else "not (wholly) written: %s" % ", ".join(missing), f.loc())
-    ctx.floor(RF, n, 6, "functions writing through a &mut hash-typed parameter")
+    ctx.floor(RF, n, floor, "functions writing through a &mut hash-typed parameter%s" % ("" if scope is None else " in scope"))
